@@ -516,6 +516,52 @@ func (r *timerRoles) isHeapLen(v ssa.Value) bool {
 	return false
 }
 
+// pushesNonNil: every heap.Push of the package pushes a value that cannot be nil - a fresh allocation, or a parameter
+// that is a fresh allocation (or the result of a function returning one) at every call of its function.
+func (r *timerRoles) pushesNonNil(c *Ctx) bool {
+	var fresh func(v ssa.Value, d int) bool
+	fresh = func(v ssa.Value, d int) bool {
+		if d > 3 {
+			return false
+		}
+		switch x := ir.Resolve(v).(type) {
+		case *ssa.Alloc:
+			return true
+		case *ssa.MakeInterface:
+			return fresh(x.X, d+1)
+		case *ssa.Call:
+			cal := ir.StaticCallee(x)
+			if cal == nil || len(cal.Blocks) == 0 {
+				return false
+			}
+			rets := ir.Returns(cal)
+			for _, ret := range rets {
+				if len(ret.Results) != 1 || !fresh(ret.Results[0], d+1) {
+					return false
+				}
+			}
+			return len(rets) > 0
+		case *ssa.Parameter:
+			return r.paramAlways(c, x, func(a ssa.Value) bool { return fresh(a, d+1) })
+		}
+		return false
+	}
+	n, okAll := 0, true
+	for _, fn := range c.P.FuncsOf("timeout") {
+		ir.Instrs(fn, func(in ssa.Instruction) {
+			call, ok := in.(*ssa.Call)
+			if !ok || ir.CalleeFullName(call) != "container/heap.Push" || len(call.Call.Args) != 2 {
+				return
+			}
+			n++
+			if !fresh(call.Call.Args[1], 0) {
+				okAll = false
+			}
+		})
+	}
+	return n > 0 && okAll
+}
+
 // paramAlways reports whether the argument bound to parameter prm satisfies pred at every call of prm's function in
 // the package (which must have at least one and must not be used as a value).
 func (r *timerRoles) paramAlways(c *Ctx, prm *ssa.Parameter, pred func(ssa.Value) bool) bool {
@@ -1718,7 +1764,53 @@ func timerLiveRules(c *Ctx, pfx string) {
 				k, isC := ir.ConstInt(y)
 				return isW && isC && ((op == token.GTR && k >= 1) || (op == token.GEQ && k >= 2))
 			}
-			ok := tmGuardHolds(in.Block(), func(cm ir.Cmp) bool { return empty(cm) || others(cm) })
+			// "no head": head := nil if Len() == 0 else heap[0]; head == nil. It means "empty" because no nil future is
+			// ever pushed (every heap.Push of the package pushes a freshly allocated future, directly or as the argument
+			// of every call of the pushing function)
+			noHead := func(cm ir.Cmp) bool {
+				if cm.Op != token.EQL {
+					return false
+				}
+				x, y := cm.X, cm.Y
+				if ir.IsNilConst(x) {
+					x, y = y, x
+				}
+				phi, isPhi := x.(*ssa.Phi)
+				if !isPhi || !ir.IsNilConst(y) || !r.pushesNonNil(c) {
+					return false
+				}
+				for j, e := range phi.Edges {
+					pred := phi.Block().Preds[j]
+					if ir.IsNilConst(e) {
+						okE := hasFactCmp(pred, empty)
+						if ef := ir.EdgeFact(pred, phi.Block()); ef != nil {
+							if ecm, isCmp := ef.Cmp(); isCmp && empty(ecm) {
+								okE = true
+							}
+						}
+						if !okE {
+							return false
+						}
+						continue
+					}
+					// the first element of the queue
+					isHead := false
+					for _, o := range ir.Origins(e) {
+						if ld, isLd := o.(*ssa.UnOp); isLd && ld.Op == token.MUL {
+							if ia, isIA := ld.X.(*ssa.IndexAddr); isIA && r.isHeapSlice(ia.X.Type()) {
+								if k, isC := ir.ConstInt(ia.Index); isC && k == 0 {
+									isHead = true
+								}
+							}
+						}
+					}
+					if !isHead {
+						return false
+					}
+				}
+				return len(phi.Edges) > 0
+			}
+			ok := tmGuardHolds(in.Block(), func(cm ir.Cmp) bool { return empty(cm) || others(cm) || noHead(cm) })
 			c.Decide(pfx+"9", fn, "worker retires only with an empty heap or another worker left", in, ok,
 				"a worker can deregister while futures are pending and it may be the last one: nobody is left to start them until some later Call spawns a worker")
 		})
